@@ -172,7 +172,7 @@ def differential(ctx, build, inputs, cvar, cname, obs, what, plain_symbol=False)
     else:
         special = Fraction(cvar)
     cands = [('1', Fraction(1)), ('2', Fraction(2)), ('1/2', Fraction(1, 2)), ('solver-chosen value', special)]
-    for cname_, cv in cands:
+    for ci, (cname_, cv) in enumerate(cands):
         from ..symx import Q
         # the direct numeric build gets the kind of number a user would pass: int when integral, float when dyadic, exact rational otherwise
         if cv.denominator == 1: cnum = int(cv)
@@ -181,7 +181,9 @@ def differential(ctx, build, inputs, cvar, cname, obs, what, plain_symbol=False)
         with warnings.catch_warnings():
             warnings.simplefilter('ignore')
             HD = build(rep, cnum)
-            HSs = HS.subs({lam: sympy.Rational(cv.numerator, cv.denominator)})
+            # the three calling conventions of sympy's subs: mapping, (old, new), sequence of pairs
+            cval = sympy.Rational(cv.numerator, cv.denominator)
+            HSs = [lambda: HS.subs({lam: cval}), lambda: HS.subs(lam, cval), lambda: HS.subs([(lam, cval)])][ci % 3]()
         ok, why = models_equal_exact(HSs, HD)
         obs.append(Ob('%s: subs(lam -> %s) equals the model built with the number' % (what, cname_), ok, info={'why': why, 'value': str(cv), 'rep': {k: str(v) for k, v in rep.items()}},
                       sig='%s: subs equals numeric build' % what))
@@ -210,7 +212,7 @@ def differential(ctx, build, inputs, cvar, cname, obs, what, plain_symbol=False)
                       'ne' not in G2.constraints or len(G2.constraints['ne']) == len(cons0.get('ne', [])), sig='%s: subs result shares constraints' % what))
 
 
-def make_cmp(ctx, rel, B, log, spin, n=2):
+def make_cmp(ctx, rel, B, log, spin, n=2, where='weight'):
     import qubovert as qv
     labels = O.LABEL_POOL[:n]
     U = O.universe(labels, n)
@@ -221,6 +223,11 @@ def make_cmp(ctx, rel, B, log, spin, n=2):
 
     def build(vals, weight):
         kw = {} if rel == 'eq' else {'log_trick': log}
+        if where == 'coefficient':
+            # the symbol is a coefficient of the constraint polynomial (explicit bounds are then required); the penalty weight is a number
+            P = {k: vals[nm] for k, nm in zip(U, names)}
+            P[(labels[0],)] = weight
+            return getattr(T({(labels[1],): 1}), 'add_constraint_%s_zero' % rel)(P, lam=2, bounds=(-9, 9), **kw)
         return getattr(T(), 'add_constraint_%s_zero' % rel)({k: vals[nm] for k, nm in zip(U, names)}, lam=weight, **kw)
 
     def run():
@@ -341,6 +348,10 @@ def jobs(tier, seed):
         for rel in ['eq', 'ne', 'lt', 'le', 'gt', 'ge']:
             for log in ([True] if rel == 'eq' else [True, False]):
                 add('%s/%s/log=%d/B%d' % ('PCSO' if spin else 'PCBO', rel, log, B), 'make_cmp', dict(rel=rel, B=B, log=log, spin=spin))
+        # only `eq`: for the inequalities the numeric build recognises special forms by the *value* of a coefficient (e.g. unit coefficients),
+        # which the symbolic build cannot, so the two legitimately differ as dicts when the symbol is a coefficient
+        for rel in ['eq']:
+            add('%s/%s/symbol-as-coefficient' % ('PCSO' if spin else 'PCBO', rel), 'make_cmp', dict(rel=rel, B=1, log=True, spin=spin, where='coefficient'))
         # (a family 'symbolic coefficient on a reduced term, default penalty' was tried and removed: the pair selection and label order of the
         #  reduction legitimately differ between the symbolic and the numeric build when a coefficient vanishes, so the two results are equal
         #  only up to relabelling of ancillas -- outside what this differential can compare; see DESIGN.md, seeded change C16-4A)
